@@ -400,7 +400,8 @@ impl StrExt for str {
 
             // The word characters in ASCII compatible mode (with the `-u` flag) match the
             // definition in the spec: any character not in the set `[A-Za-z0-9_]`.
-            let regex = format!(r"(?-u:^|\W|\b){}(?-u:\b|\W|$)", chunks.concat());
+            // The `s` flag makes the wildcards match any character, including a newline.
+            let regex = format!(r"(?s)(?-u:^|\W|\b){}(?-u:\b|\W|$)", chunks.concat());
             let re = Regex::new(&regex).expect("regex construction should succeed");
             re.is_match(self.as_bytes())
         } else {
